@@ -328,6 +328,10 @@ func c02(c *Ctx) {
 		oid := sha(dc.Content)
 		final, _ := fsys.ObjectPath(oid)
 		part := filepath.Join(incomplete, oid+".part")
+		if !strings.HasPrefix(final, repo) {
+			// the empty object's "path" is os.DevNull: never touch anything outside the scratch repository
+			continue
+		}
 		os.Remove(final)
 		os.Remove(part)
 		if dc.HasPart {
